@@ -121,8 +121,15 @@ impl<'r> Gen<'r> {
     }
 
     fn fresh(&mut self, prefix: &str) -> String {
-        self.next_id += 1;
-        format!("{prefix}{}", self.next_id)
+        // (never a name that the current scope holds already: a constant from the name pool that a
+        // pattern binding shadows must not meet the same number again within that pattern)
+        loop {
+            self.next_id += 1;
+            let name = format!("{prefix}{}", self.next_id);
+            if !self.scopes.last().map(|sc| sc.iter().any(|v| v.name == name)).unwrap_or(false) {
+                return name;
+            }
+        }
     }
 
     fn charge(&mut self, units: u64) {
@@ -1042,6 +1049,7 @@ impl<'r> Gen<'r> {
         let v = self.rng.pick(&muts).clone();
         let d = depth.saturating_sub(1).min(2);
         let mut accs = vec![];
+        let mut index_positions: Vec<(usize, usize)> = vec![];
         let mut cur = v.ty.clone();
         loop {
             let go_deeper = match &cur {
@@ -1071,6 +1079,7 @@ impl<'r> Gen<'r> {
                     } else {
                         idx
                     };
+                    index_positions.push((accs.len(), n));
                     accs.push(Acc::Index(idx));
                     cur = *et;
                 }
@@ -1094,6 +1103,25 @@ impl<'r> Gen<'r> {
                     cur = self.defs.structs[si].fields[k].1.clone();
                 }
                 _ => break,
+            }
+        }
+        // two index expressions of one place that interact: the earlier one is a block that assigns a
+        // variable, the later one reads it (the index expressions of a place run in source order)
+        if index_positions.len() >= 2 && self.in_head == 0 && self.rng.chance(1, 3) {
+            let (first, _) = index_positions[0];
+            let (later, later_len) = index_positions[1 + self.rng.usize_below(index_positions.len() - 1)];
+            let counters: Vec<Var> = muts.iter().filter(|c| c.name != v.name && matches!(c.ty, Ty::Int(_))).cloned().collect();
+            if later_len > 0 && !counters.is_empty() {
+                self.note("index-expressions-of-one-place-interact");
+                let c = self.rng.pick(&counters).clone();
+                let new_val = self.gen_expr(&c.ty, 1);
+                let set = Stmt::new(StmtKind::Assign { var: c.name.clone(), accs: vec![], op: None, value: new_val, target_ty: c.ty.clone() });
+                let Acc::Index(old_first) = accs[first].clone() else { unreachable!() };
+                accs[first] = Acc::Index(e(ExprKind::Block(Block { stmts: vec![set], tail: Some(Box::new(old_first)) }), Ty::Int(ints::USIZE)));
+                let read = e(ExprKind::Cast(Box::new(e(ExprKind::Var(c.name.clone()), c.ty.clone()))), Ty::Int(ints::USIZE));
+                accs[later] = Acc::Index(e(ExprKind::Bin(BinOp::Rem, Box::new(read), Box::new(lit_int(ints::USIZE, later_len as i128))), Ty::Int(ints::USIZE)));
+                let cost = self.type_cost(&v.ty) * 24;
+                self.charge(cost);
             }
         }
         if self.in_head > 0 && self.contains_struct(&cur) {
@@ -1589,13 +1617,7 @@ impl<'r> Gen<'r> {
     /// `pub fn main(a: [(K, PA..); n], b: [(K, PB..); m]) -> (accumulators..)` with one for-join
     /// loop whose body updates the accumulators (order-sensitive, possibly panicking).
     pub fn gen_join_program(mut self, n: usize, m: usize) -> Program {
-        let key: Ty = match self.rng.below(6) {
-            0 => Ty::Int(ints::U16),
-            1 => Ty::Int(ints::U32),
-            2 => Ty::Int(ints::U64),
-            3 => Ty::Tuple(vec![Ty::Int(ints::U8), Ty::Int(ints::U8)]),
-            _ => Ty::Int(ints::U8),
-        };
+        let key: Ty = crate::props::c13::join_key_type(self.rng);
         let mut side = |g: &mut Self| -> Ty {
             let k = 1 + g.rng.usize_below(2); // no 1-tuples (not expressible as literals)
             let mut fields = vec![key.clone()];
@@ -1670,6 +1692,9 @@ impl<'r> Gen<'r> {
                 let mut k = e(ExprKind::TupleField(Box::new(el), 0), key.clone());
                 if let Ty::Tuple(ts) = &key {
                     k = e(ExprKind::TupleField(Box::new(k), 1), ts[1].clone());
+                }
+                if let Ty::Array(et, len) = &key {
+                    k = e(ExprKind::Index(Box::new(k), Box::new(lit_int(ints::USIZE, (*len - 1) as i128))), (**et).clone());
                 }
                 e(ExprKind::Cast(Box::new(k)), acc_ty.clone())
             };
